@@ -21,7 +21,8 @@
 //!   np M M …             the same, negated (`! …`)
 //!   bg M                 `M &`  (asynchronous list, `$!` saved in `$jK`, K = number of this job)
 //!   bg M M …             `M | M … &`
-//!   wj K L …             `wait $jK $jL …`      w               `wait`
+//!   wj O O …             `wait` with operands  O ::= K (`$jK`) | u (`99999`, never a child) | % (`%7`, no such job)
+//!   w                    `wait`
 //!   wu                   `wait 9999` (a pid that was never a child)
 //!   g N                  `( exit N )`          gg N            `( ( exit N ) )`
 //!   gp M M …             `( M | M … )`         gb N            `( st N & wait $! )`
@@ -343,8 +344,16 @@ fn render_stmt(t: &str, nasync: &mut usize) -> Option<String> {
             format!("{} & j{}=$!", render_members(ms)?, *nasync)
         }
         ["wj", ks @ ..] if !ks.is_empty() => {
-            let v: Option<Vec<String>> =
-                ks.iter().map(|k| k.parse::<u32>().ok().map(|k| format!("$j{k}"))).collect();
+            // operands: K = `$jK` (pid of the K-th asynchronous list), `u` = a pid that never was a
+            // child, `%` = a job ID that names no job
+            let v: Option<Vec<String>> = ks
+                .iter()
+                .map(|k| match *k {
+                    "u" => Some("99999".to_string()),
+                    "%" => Some("%7".to_string()),
+                    k => k.parse::<u32>().ok().filter(|k| *k >= 1 && *k <= *nasync as u32).map(|k| format!("$j{k}")),
+                })
+                .collect();
             format!("wait {}", v?.join(" "))
         }
         ["w"] => "wait".to_string(),
@@ -446,10 +455,14 @@ fn gen_program(r: &mut Rng, thorough: bool) -> String {
     let mut nasync = 0usize;
     let mut open: Vec<usize> = vec![]; // jobs not yet waited for
     let mut live = 0usize; // processes the unwaited jobs may keep alive
+    let mut weight: Vec<usize> = vec![0]; // per job number
     for _ in 0..len {
         let st = *r.pick(&STATUSES);
         let room = 4usize.saturating_sub(live);
-        let choice = r.below(20);
+        let mut choice = r.below(20);
+        if (8..=11).contains(&choice) && open.is_empty() && room >= 2 && r.chance(3, 4) {
+            choice = 5; // nothing to wait for yet: start a job instead
+        }
         let s = match choice {
             0 => (if r.chance(1, 2) { "pf1" } else { "pf0" }).to_string(),
             1..=4 if room >= 2 => {
@@ -462,39 +475,45 @@ fn gen_program(r: &mut Rng, thorough: bool) -> String {
                 if room >= 3 && r.chance(1, 3) {
                     let n = 2;
                     live += n + 1;
+                    weight.push(n + 1);
                     format!("bg {}", gen_members(r, n, false).join(" "))
                 } else {
                     live += 2;
+                    weight.push(2);
                     let m = gen_members(r, 1, false).remove(0);
                     format!("bg {m}")
                 }
             }
-            8..=9 if !open.is_empty() => {
-                let i = r.below(open.len());
-                let k = open.remove(i);
-                if open.is_empty() {
-                    live = 0;
-                } else {
-                    live = live.saturating_sub(2);
+            8..=11 => {
+                // `wait` with 1-4 operands mixing jobs not yet waited for, jobs waited for already
+                // (also: earlier in the same list), a pid that never was a child and an unknown job
+                // ID, in every position
+                let n = 1 + r.below(4);
+                let mut ops: Vec<String> = vec![];
+                for _ in 0..n {
+                    let done: Vec<usize> = (1..=nasync).filter(|k| !open.contains(k)).collect();
+                    match r.below(8) {
+                        0..=3 if !open.is_empty() => {
+                            let i = r.below(open.len());
+                            ops.push(open.remove(i).to_string());
+                        }
+                        4 if !done.is_empty() => ops.push(r.pick(&done).to_string()),
+                        5 => ops.push("u".to_string()),
+                        6 => ops.push("%".to_string()),
+                        _ if !open.is_empty() => {
+                            let i = r.below(open.len());
+                            ops.push(open.remove(i).to_string());
+                        }
+                        _ => ops.push((if r.chance(1, 2) { "u" } else { "%" }).to_string()),
+                    }
                 }
-                if !open.is_empty() && r.chance(1, 3) {
-                    let j = r.below(open.len());
-                    let l = open.remove(j);
-                    live = if open.is_empty() { 0 } else { live.saturating_sub(2) };
-                    format!("wj {k} {l}")
-                } else {
-                    format!("wj {k}")
-                }
+                live = open.iter().map(|k| weight[*k]).sum();
+                format!("wj {}", ops.join(" "))
             }
-            10 => {
+            19 if r.chance(1, 2) => {
                 open.clear();
                 live = 0;
                 "w".to_string()
-            }
-            11 => {
-                // a job that was waited for already, or a pid that never was a child
-                let done: Vec<usize> = (1..=nasync).filter(|k| !open.contains(k)).collect();
-                if !done.is_empty() && r.chance(2, 3) { format!("wj {}", r.pick(&done)) } else { "wu".to_string() }
             }
             12 => format!("g {st}"),
             13 if room >= 2 => format!("gg {st}"),
@@ -510,21 +529,25 @@ fn gen_program(r: &mut Rng, thorough: bool) -> String {
         };
         stmts.push(s);
     }
-    if !open.is_empty() {
-        // every asynchronous job is waited for before the shell exits
-        if r.chance(1, 2) {
-            stmts.push("w".to_string());
-        } else {
-            while !open.is_empty() {
-                let i = r.below(open.len());
-                stmts.push(format!("wj {}", open.remove(i)));
-            }
+    // every asynchronous job is waited for before the shell exits: sometimes one by one, and always a
+    // final plain `wait`
+    if !open.is_empty() && r.chance(1, 2) {
+        while !open.is_empty() {
+            let i = r.below(open.len());
+            stmts.push(format!("wj {}", open.remove(i)));
         }
     }
+    stmts.push("w".to_string());
     stmts.join("; ")
 }
 
-const FIXED_PROGRAMS: [&str; 14] = [
+const FIXED_PROGRAMS: [&str; 20] = [
+    "bg s3; wj u 1; w",
+    "bg s3; bg s4; wj 1; wj 1 2; w",
+    "bg s3; bg s4; wj 1 % 2; w",
+    "bg s5; wj % u 1 u; bg s6; wj 1 2 2; w",
+    "bg s1; bg s2; bg s3; wj u 3 % 1; wj 2 u; w",
+    "bg s7; wj 1 1; w",
     "bg s3; g 4; wj 1",
     "bg s1; bg s2; w",
     "bg s1; bg s2; wj 2; wj 1; wj 1",
